@@ -15,6 +15,7 @@ from checks import common
 PROP = 'C18'
 
 POPS = {
+    'none': (),
     'plain1': (('A', 'G1', 'L1', 'plain'),),
     'plain2': (('B b', 'G1', 'L1', 'plain'), ('A', 'G1', 'L2', 'plain')),
     'zone3': (('Z', 'G2', 'L2', 'multizone', 3),),
